@@ -124,6 +124,15 @@ def native_moves(prop, tier, seed):
                            '<backend>::parallel_moves::{contains_spill_edge,store_temporary,restore_temporary}', '<backend>::code::mov', '<backend>::memory::{erase_block,share_block_n}'])
 
 
+@register('native_prints')
+def native_prints(prop, tier, seed):
+    sums, cmd = native_run(['prints', '--tier', tier, '--seed', str(seed)])
+    return _native_result('native_prints', sums, cmd,
+                          ['<x86_64|aarch64>::code::{print_i64,caller_save_registers_info,save_caller_save_registers,restore_caller_save_registers}',
+                           '<x86_64|aarch64>::into_routine::{into_*_routine,preamble,setup,move_arguments,cleanup}', 'axcut2backend::coder::{compile,translate,assemble}',
+                           'axcut2backend::statements::exit::Exit::code_statement'])
+
+
 def _emitters(prop, tier, seed, backend):
     sums, cmd = native_run(['emitters', '--backend', backend, '--seed', str(seed)])
     return _native_result('native_emitters/' + backend, sums, cmd, ['<%s>::code::Instructions::*' % backend], backend)
